@@ -310,11 +310,147 @@ func suiteClient(args []string) {
 			rep.Samples = append(rep.Samples, map[string]interface{}{"case": firstN(cmd, 300), "observed": firstN(obs, 200)})
 		}
 	}
+	// life cycle: every sequence of Connect (to peers that accept / fail at different stages), Send and Close
+	clientLifecycle(cw, rep, viol, *n)
 	// client half of C15: deadlines around every exchange
 	clientTiming(rep, viol)
 	cw.close()
 	rep.Evaluations = cw.n
 	rep.emit()
+}
+
+// lifePeers: a TLS peer answering every request with a valid Discover Versions reply, a plain TCP peer (no TLS),
+// a TLS peer whose certificate is signed by an unknown CA, and an address nobody listens on
+type lifePeers struct {
+	good, plain, untrusted net.Listener
+	refused                string
+}
+
+func newLifePeers() *lifePeers {
+	p := getPKI()
+	ok := okReply()
+	serve := func(l net.Listener, tlsPeer bool) {
+		for {
+			conn, err := l.Accept()
+			if err != nil {
+				return
+			}
+			go func(conn net.Conn) {
+				defer conn.Close()
+				if !tlsPeer {
+					conn.SetDeadline(time.Now().Add(2 * time.Second))
+					conn.Write([]byte("HTTP/1.1 400 Bad Request\r\n\r\n"))
+					return
+				}
+				for {
+					hdr := make([]byte, 8)
+					conn.SetReadDeadline(time.Now().Add(5 * time.Second))
+					if _, err := io.ReadFull(conn, hdr); err != nil {
+						return
+					}
+					body := make([]byte, binary.BigEndian.Uint32(hdr[4:]))
+					if _, err := io.ReadFull(conn, body); err != nil {
+						return
+					}
+					conn.Write(ok)
+				}
+			}(conn)
+		}
+	}
+	lp := &lifePeers{}
+	var err error
+	if lp.good, err = tls.Listen("tcp", "127.0.0.1:0", &tls.Config{Certificates: []tls.Certificate{p.server["valid"]}, MinVersion: tls.VersionTLS12}); err != nil {
+		panic(err)
+	}
+	if lp.untrusted, err = tls.Listen("tcp", "127.0.0.1:0", &tls.Config{Certificates: []tls.Certificate{p.server["otherca"]}, MinVersion: tls.VersionTLS12}); err != nil {
+		panic(err)
+	}
+	if lp.plain, err = net.Listen("tcp", "127.0.0.1:0"); err != nil {
+		panic(err)
+	}
+	dead, err := net.Listen("tcp", "127.0.0.1:0")
+	if err != nil {
+		panic(err)
+	}
+	lp.refused = dead.Addr().String()
+	dead.Close()
+	go serve(lp.good, true)
+	go serve(lp.untrusted, true)
+	go serve(lp.plain, false)
+	return lp
+}
+
+func (lp *lifePeers) stop() { lp.good.Close(); lp.untrusted.Close(); lp.plain.Close() }
+
+// clientLifecycle runs every sequence of {connect good, connect plain, connect untrusted, connect refused, send, close}
+// up to a length bound on one Client value; a panic anywhere is a violation of C14 by itself
+func clientLifecycle(cw *caseWriter, rep *Report, viol func(string, map[string]interface{}), n int) {
+	maxLen := 3
+	if n >= 1000 {
+		maxLen = 4
+	}
+	lp := newLifePeers()
+	defer lp.stop()
+	toks := []string{"cG", "cP", "cU", "cD", "s", "x"}
+	var seqs [][]string
+	var build func(prefix []string)
+	build = func(prefix []string) {
+		if len(prefix) > 0 {
+			seqs = append(seqs, append([]string(nil), prefix...))
+		}
+		if len(prefix) == maxLen {
+			return
+		}
+		for _, t := range toks {
+			build(append(prefix, t))
+		}
+	}
+	build(nil)
+	for _, seq := range seqs {
+		c := &kmip.Client{TLSConfig: clientTLS(), ReadTimeout: 3 * time.Second, WriteTimeout: 3 * time.Second}
+		var outs []string
+		func() {
+			cur := ""
+			defer func() {
+				if p := recover(); p != nil {
+					outs = append(outs, "panic")
+					viol("client-panic", map[string]interface{}{"case": "clientlife " + strings.Join(seq, " "), "at": cur, "observed": "panic " + firstLine(fmt.Sprint(p)),
+						"what": "Client panicked in a Connect/Send/Close history"})
+				}
+			}()
+			for _, t := range seq {
+				cur = t
+				switch t {
+				case "cG", "cP", "cU", "cD":
+					c.Endpoint = map[string]string{"cG": lp.good.Addr().String(), "cP": lp.plain.Addr().String(), "cU": lp.untrusted.Addr().String(), "cD": lp.refused}[t]
+					if err := c.Connect(); err != nil {
+						outs = append(outs, "err")
+					} else {
+						outs = append(outs, "ok")
+					}
+				case "x":
+					c.Close()
+					outs = append(outs, "ok")
+				case "s":
+					vs, err := c.DiscoverVersions(nil)
+					switch {
+					case err == nil && vs == nil:
+						outs = append(outs, "exchange")
+					case err == nil:
+						outs = append(outs, "exchange-other-reply")
+					case strings.Contains(err.Error(), "not connected"):
+						outs = append(outs, "err")
+					default:
+						outs = append(outs, "exchange-failed")
+					}
+				}
+			}
+		}()
+		c.Close()
+		cw.add("clientlife", "clientlife "+strings.Join(seq, " "), strings.Join(outs, " "))
+		rep.Nontrivial++
+		rep.Distribution[fmt.Sprintf("clientlife:len=%d", len(seq))]++
+	}
 }
 
 func okReply() []byte {
